@@ -130,4 +130,38 @@ Proof.
   apply T; try assumption. eapply s_same_wf; eassumption.
 Qed.
 
+(** ** collapse to the midpoint of a boundary edge l (no right side), triangle l -> a -> b: the driver has exactly the
+    topological effect of its half-cell *)
+Lemma to_mid_boundary_split E n ks b l a b0r b1r c w cnt vid w' cnt' :
+  run E (collapse_edge_to_midpoint n ks b l a b0r 0 b1r) c w cnt = (Done vid, w', cnt') ->
+  exists wa cnta, run E (collapse_halfcell_to_midpoint n ks b l a) c w cnt = (Done tt, wa, cnta) /\ topo_eq wa w'.
+Proof.
+  intros Hr. unfold collapse_edge_to_midpoint in Hr.
+  change (0 =? 0) with true in Hr. cbn [negb bind] in Hr.
+  apply rd_stepY' in Hr.
+  rewrite run_bind in Hr.
+  destruct (run E (collapse_halfcell_to_midpoint n ks b l a) c w cnt) as [[[[]|e| |q] wa] cnta] eqn:Eh; try discriminate Hr.
+  exists wa, cnta. split; [reflexivity|].
+  apply Sdata_topo. intros v Hv. eapply writes_in_run; [|exact Hr|exact Hv]. wi'.
+Qed.
+
+Theorem collapse_to_midpoint_boundary E n ks l a b b0r b1r c w cnt vid w' cnt' :
+  let A2 := beta w 2 a in let B2 := beta w 2 b in
+  NoDup [l; a; b; A2; B2] -> ~ In 0 [l; a; b; A2; B2] ->
+  beta w 1 l = a -> beta w 1 a = b -> beta w 1 b = l -> beta w 2 l = 0 ->
+  run E (collapse_edge_to_midpoint n ks b l a b0r 0 b1r) c w cnt = (Done vid, w', cnt') ->
+  (forall i y, beta w' i y =
+     if (y =? l) || (y =? a) || (y =? b) then (if i <? 3 then 0 else beta w i y)
+     else if i =? 2 then (if y =? B2 then A2 else if y =? A2 then B2 else beta w 2 y)
+     else beta w i y) /\
+  (forall y, unused w' y = if (y =? l) || (y =? a) || (y =? b) then true else unused w y).
+Proof.
+  intros A2 B2 Hnd Hz B1 B2' B3 Zl Hr.
+  destruct (to_mid_boundary_split _ _ _ _ _ _ _ _ _ _ _ _ _ _ Hr) as (wa & cnta & Eh & [Tb Tu]).
+  destruct (halfcell_to_midpoint_topology E n ks l a b c w cnt wa cnta Hnd Hz B1 B2' B3 Zl Eh) as (Hb & Hu).
+  split.
+  - intros i y. rewrite Tb, Hb. reflexivity.
+  - intros y. rewrite Tu, Hu. reflexivity.
+Qed.
+
 End CollapseBase.
